@@ -3,6 +3,7 @@ package sample
 import (
 	"encoding/json"
 	"fmt"
+	"math"
 	"math/rand"
 	"strings"
 
@@ -359,6 +360,36 @@ const (
 	more  = 1
 )
 
+// compareFloatToInt compares a float64 field value with an integer from the
+// rule exactly. Converting the integer to float64 first would round it above
+// 2^53, so that a field holding 2^53 "equals" a configured 2^53+1 when the span
+// arrived as JSON (float64) but not when it arrived as a msgpack integer.
+func compareFloatToInt(f float64, i int64) int {
+	switch {
+	case f != f: // NaN compares as before: neither less nor more
+		return equal
+	case f >= 1<<63:
+		return more
+	case f < -(1 << 63):
+		return less
+	}
+	whole := math.Trunc(f)
+	switch n := int64(whole); {
+	case n < i:
+		return less
+	case n > i:
+		return more
+	}
+	// equal integer parts: the fraction decides
+	switch {
+	case f < whole:
+		return less
+	case f > whole:
+		return more
+	}
+	return equal
+}
+
 func compare(a, b interface{}) (int, bool) {
 	// a is the tracing data field value. This can be: float64, int64, bool, or string
 	// b is the Rule condition value. This can be: float64, int64, int, bool, or string
@@ -413,25 +444,9 @@ func compare(a, b interface{}) (int, bool) {
 	case float64:
 		switch bt := b.(type) {
 		case int:
-			f := float64(bt)
-			switch {
-			case at < f:
-				return less, true
-			case at > f:
-				return more, true
-			default:
-				return equal, true
-			}
+			return compareFloatToInt(at, int64(bt)), true
 		case int64:
-			f := float64(bt)
-			switch {
-			case at < f:
-				return less, true
-			case at > f:
-				return more, true
-			default:
-				return equal, true
-			}
+			return compareFloatToInt(at, bt), true
 		case float64:
 			switch {
 			case at < bt:
